@@ -387,6 +387,12 @@ def prepare_proofs(ctx):
                         checker_cmd="cd coq && make -k -j16 && coqc -Q . SqfsV %s (Print Assumptions after every theorem)" % res["file"],
                         theorems=res["theorems"], examples=res["examples"], coq_files=res["files"],
                         print_assumptions=dict(closed_under_global_context=res["closed"], axioms=res["axioms"]))
+    if ctx.tier == "thorough" and res["ok"] and os.environ.get("VERIF_NO_COQCHK") != "1":
+        t = time.time()
+        rc, out = sh(["timeout", "1800", "coqchk", "-o", "-silent", "-Q", ".", "SqfsV", "SqfsV.Properties_%s" % ctx.prop], cwd=COQ)
+        ctx.coverage["coqchk"] = dict(rc=rc, wall_s=round(time.time() - t, 1), output=out[-3000:])
+        if rc != 0:
+            ctx.proof_broken.append("coqchk rejects Properties_%s.vo: %s" % (ctx.prop, out[-800:]))
     return res
 
 
